@@ -75,7 +75,9 @@ class Coverage:
             self.cap(c)
         self.exhaustive = self.exhaustive and other.exhaustive
         for k, v in other.extra.items():
-            if isinstance(v, (int, float)) and isinstance(self.extra.get(k, 0), (int, float)):
+            if k.startswith("max_") and isinstance(v, (int, float)):
+                self.extra[k] = max(self.extra.get(k, 0), v)
+            elif isinstance(v, (int, float)) and isinstance(self.extra.get(k, 0), (int, float)):
                 self.extra[k] = self.extra.get(k, 0) + v
             elif isinstance(v, list):
                 cur = self.extra.setdefault(k, [])
